@@ -158,6 +158,46 @@ def regenerate_blockfacts():
     return True, ""
 
 
+def regenerate_gen():
+    """coq/theories/Gen*.v: Gallina translations of the sequential functions of the current /repo sources (tools/gotrans: dividers,
+    rate conversion, the scheduling arithmetic of both priority disciplines, option validation, interval computations, helpers),
+    regenerated on every run.  The hand-written GenTie*.v prove that they equal the corresponding pieces of the hand-written
+    models; a function that changed, disappeared or can no longer be translated breaks those proof obligations."""
+    os.makedirs(WORK, exist_ok=True)
+    tool = os.path.join(WORK, "gotrans")
+    src = os.path.join(VERIF, "tools", "gotrans")
+    newest = max(os.path.getmtime(os.path.join(src, f)) for f in os.listdir(src) if f.endswith(".go") or f in ("go.mod", "go.sum"))
+    if not os.path.exists(tool) or os.path.getmtime(tool) < newest:
+        rc, out = sh(["go", "build", "-o", tool, "."], cwd=src, env=GOENV, timeout=600)
+        if rc != 0:
+            return False, "gotrans does not build: " + out[-1500:]
+    tmp = os.path.join(WORK, "gen.%d" % os.getpid())
+    shutil.rmtree(tmp, ignore_errors=True)
+    os.makedirs(tmp)
+    rc, out = sh([tool, REPO, tmp], timeout=600, env=GOENV)
+    theories = os.path.join(COQ, "theories")
+    expected = sorted(f for f in os.listdir(theories) if re.match(r"Gen[A-Z0-9]\w*\.v$", f) and not f.startswith("GenTie"))
+    produced = sorted(f for f in os.listdir(tmp) if f.endswith(".v"))
+    problems = []
+    if rc != 0:
+        problems.append("gotrans exit %d: %s" % (rc, out[-800:]))
+    for f in expected:
+        if f not in produced:
+            # the unit can no longer be translated: an empty module, so that exactly the tie lemmas about it stop checking
+            open(os.path.join(tmp, f), "w").write("(* GENERATED by tools/gotrans: this unit could not be translated from the current sources\n%s *)\n"
+                                                  % out[-1500:].replace("*)", "* )"))
+            problems.append("%s not produced" % f)
+    for f in sorted(os.listdir(tmp)):
+        if not (f.endswith(".v") or f == "gotrans_index.json"):
+            continue
+        dst = os.path.join(theories, f) if f.endswith(".v") else os.path.join(COQ, f)
+        new = open(os.path.join(tmp, f)).read()
+        if not os.path.exists(dst) or open(dst).read() != new:
+            open(dst, "w").write(new)
+    shutil.rmtree(tmp, ignore_errors=True)
+    return True, "; ".join(problems)
+
+
 def coq_make(clean=False, timeout=3000):
     """Builds the whole development (`make -k`: a file that no longer checks does not hide the others; its stale .vo is removed
     so that nothing can load it).  Returns (everything built, output)."""
@@ -168,6 +208,9 @@ def coq_make(clean=False, timeout=3000):
     if not ok:
         return False, msg
     ok, msg = regenerate_blockfacts()
+    if not ok:
+        return False, msg
+    ok, msg = regenerate_gen()
     if not ok:
         return False, msg
     if clean:
